@@ -299,6 +299,8 @@ class ApiFuzzer:
         """most sequences start from a real (generated) program so that runs go somewhere."""
         case = imagegen.generate_case(self.rng, max_ops=400)
         flat = self.safe_flat_max()
+        if not enginecmp.flat_window_is_harmless(case, {'engine': 'native', 'flat_max_words': flat}):
+            flat = self.rng.choice([1, 5, 1 << 14, 1 << 20])  # (a window of gigabytes over this image's far segments)
         self.note('program', case, flat)
         self.mem = self.core.Memory(case['w'], flat_max_words=flat)
         self.w = case['w']
